@@ -141,7 +141,12 @@ class ServerSystem:
             accept = md['state'] == 2
             reply_type = 'result'
         elif ev == 'foreign-sid':
-            s.conn.send('config', pickle.dumps(fx.c2), sid='someone-else')
+            # three foreign service ids, two of them adversarially close to the connection's own: same first 8 characters (what the
+            # logs print), the other case, and an unrelated one
+            own = s.sid
+            for other in ('someone-else', own[:8] + ('Z' if own[8:9] != 'Z' else 'Y') + own[9:], own.swapcase(), own + '0', own[:-1]):
+                assert other != own
+                s.conn.send('config', pickle.dumps(fx.c2), sid=other)
             accept = False
             reply_type = 'config'
         elif ev == 'unknown-type':
